@@ -409,8 +409,10 @@ def classify(ctx, variant, devs, name):
                                                                          "stuck_prefix_state": pc["d"], "pipeline": pr}})
             g["n"] += 1
         for gkey, g in sorted(groups.items()):
-            violations.append(Violation(key=gkey, desc="%s [%d reachable (state, action) cases of this kind]" % (g["desc"], g["n"]),
-                                        replay=g["replay"]))
+            vv = Violation(key=gkey, desc="%s [%d reachable (state, action) cases of this kind]" % (g["desc"], g["n"]),
+                           replay=g["replay"])
+            vv.count = g["n"]
+            violations.append(vv)
     return violations, unexplained
 
 
